@@ -1188,12 +1188,20 @@ def c_default_prim(m, st, f, a):
     if t in INT_TYPES: return IntV(0, t)
     if t == 'bool': return False
     if t in ('std::string::String', 'String', '&str'): return mkstr('')
-    if t.startswith('Rope<'): return RopeV([])
+    if t.startswith('Rope<'): return NotImplemented if getattr(m, 'rope_real', False) else RopeV([])
     if re.match(r'^[A-Z][A-Za-z0-9]?$', t):
         rt = generic_runtime_type(m, st, t)
         if rt == 'str': return mkstr('')
+        if rt == 'Rope' and getattr(m, 'rope_real', False): return m_call_default_rope(m, st)
         if rt == 'Rope': return RopeV([])
     return NotImplemented
+
+
+def m_call_default_rope(m, st):
+    it = m.lookup("<Rope<'_> as Default>::default", [])
+    if it is None: raise Inconclusive('Rope::default not found')
+    m.push_frame(st, it, [], m.cur_ret, "<Rope<'_> as Default>::default")
+    return PUSHED
 
 
 def generic_runtime_type(m, st, param):
